@@ -118,6 +118,11 @@ func (vc *VC) initGhosts(st *State) {
 		switch d.Init {
 		case "":
 			st.pseudo[d.Name] = vc.fresh("g_"+d.Name, srt)
+		case "zero":
+			if g != nil {
+				panic(unsupported("'= zero' needs a scalar ghost variable"))
+			}
+			st.pseudo[d.Name] = vc.zero(t).S
 		case "empty":
 			if g == nil || g.ElemG != nil || kindOf(g.ElemT) != KBool {
 				panic(unsupported("'= empty' needs a [K]bool ghost variable"))
@@ -262,6 +267,20 @@ func (vc *VC) runUpdates(ins ssa.Instruction, st *State) {
 		return
 	}
 	env := vc.localEnv(ins.Block(), vc.contractEnv(nil))
+	// results of the call just made: ret0, ret1, ...
+	if call, ok := ins.(*ssa.Call); ok {
+		if rv, ok := vc.regs[call]; ok {
+			if rv.K == KTuple {
+				for i := range rv.Fs {
+					f := rv.Fs[i]
+					env.names[fmt.Sprintf("ret%d", i)] = envEntry{val: &f}
+				}
+			} else {
+				r0 := rv
+				env.names["ret0"] = envEntry{val: &r0}
+			}
+		}
+	}
 	// ghost results of the call just made
 	for n, v := range vc.lastGhostResults {
 		v := v
